@@ -246,4 +246,38 @@ def runProc (acts : List Act) (ins : List Item) : List Op × Option String :=
   match discharge (fuelFor acts ins) acts (PS.init ins) with
   | (ps, why) => (ps.toks, why)
 
+/-! The processor discipline of M2 on its own: the fields of `StreamProc.SS` that record what the
+    processor has (in hand, held, re-injected) and the guards `StreamProc.step?` puts on them. -/
+
+structure DS where
+  inhand : Option Nat := none
+  held   : List Nat := []
+  propd  : List Nat := []
+deriving Repr, DecidableEq
+
+def dstep? (d : DS) : Op → Option DS
+  | .get q => if d.inhand = none ∧ d.propd = [] then some { d with inhand := some q } else none
+  | .getTimeout => if d.inhand = none ∧ d.propd = [] then some d else none
+  | .leave => if d.inhand = none ∧ d.propd = [] ∧ d.held.isEmpty then some d else none
+  | .hold q => if d.inhand = some q then some { d with inhand := none, held := d.held ++ [q] } else none
+  | .drop q =>
+    if d.inhand = some q then some { d with inhand := none }
+    else if q ∈ d.propd then some { d with propd := d.propd.erase q }
+    else none
+  | .propagate q => if q ∈ d.held then some { d with held := d.held.erase q, propd := q :: d.propd } else none
+  | .out q =>
+    if ∀ x ∈ d.propd ++ d.held ++ d.inhand.toList, q ≤ x then
+      if q ∈ d.propd then some { d with propd := d.propd.erase q }
+      else if d.inhand = some q then some { d with inhand := none }
+      else none
+    else none
+  | _ => some d
+
+def drun (d : DS) : List Op → Option DS
+  | [] => some d
+  | op :: ops => (dstep? d op).bind (drun · ops)
+
+/-- the processor-side projection of an M2 state -/
+def proj (s : StreamProc.SS) : DS := { inhand := s.inhand, held := s.held, propd := s.propd }
+
 end FileD.Proc
